@@ -50,5 +50,19 @@ def mutants():
 
 
 if __name__ == "__main__":
-    seeded()
-    mutants()
+    import io, sys
+    if "--write-design" in sys.argv:
+        buf = io.StringIO()
+        old = sys.stdout
+        sys.stdout = buf
+        seeded()
+        mutants()
+        sys.stdout = old
+        p = os.path.join(V, "DESIGN.md")
+        s = open(p).read()
+        a, b = s.index("<!-- SENS-BEGIN -->") + len("<!-- SENS-BEGIN -->"), s.index("<!-- SENS-END -->")
+        open(p, "w").write(s[:a] + "\n" + buf.getvalue() + s[b:])
+        print("DESIGN.md updated (%d lines)" % len(buf.getvalue().splitlines()))
+    else:
+        seeded()
+        mutants()
